@@ -44,7 +44,7 @@ SEP = "\u00a6"
 
 # ------------------------------------------------------------------ Coq terms
 
-NAMES = ["x", "now", "today", "y", "q", "c", "forloop", "w_", "z"]
+NAMES = ["x", "now", "today", "y", "q", "c", "forloop", "w_", "z", "block"]
 DEFS = "\n".join(f"Definition k_{n} : str := {C.cstr(n)}." for n in NAMES) + """
 (* monomorphic aliases: no implicit arguments to infer in the (large) generated terms *)
 Definition vD (n : N) : value N := Data n.
@@ -84,6 +84,13 @@ Definition chk_copy2 (W : world N) (pre : list (op N)) (ns1 : dict N) (k : str)
   let st1 := st_push (st_push (ctx_copy st ns1) []) [(k_w_, Data 90%N)] in
   option_eqb value_eqb (st_lookup (st_push (ctx_copy st1 []) []) k) inner
   && option_eqb value_eqb (st_lookup st k) outer.
+Definition chk_block (W : world N) (bind : dict N) (ops : list (op N)) (k : str)
+    (exp : list (obs N)) (after : option (value N)) : bool :=
+  let st0 := st_push (build_base W) [] in
+  let st1 := st_push st0 bind in
+  let r := exec_list 30 ops (ctx_copy_block st1 [kv k_block (vD 101)]) in
+  list_eqb obs_eqb (trace_of r) exp && N.eqb (status_code (status_of r)) 0
+  && option_eqb value_eqb (st_lookup (with_store st0 (store_of (state_of r))) k) after.
 Definition refetch_state (W : world N) (tg2 ra2 : dict N) : state N :=
   let s0 := caller_store W ++ [tg2; ra2] in
   let '(s1, eg) := or_empty s0 0%nat in
@@ -411,7 +418,7 @@ def api_world(S: str, name: str, vals: dict[str, tuple] | None = None) -> dict[s
             "ra": [(name, v["R"])] if "R" in S else []}
 
 
-SHAPES = ["plain", "for", "capture", "assign_in_block", "include", "nested", "lambda", "liquid", "render", "render2", "render_with"]
+SHAPES = ["plain", "for", "capture", "assign_in_block", "include", "nested", "lambda", "liquid", "render", "render2", "render_with", "extends_block"]
 
 
 def api_program(S: str, name: str, shape: str, vals: dict[str, tuple] | None = None) -> tuple[list[tuple], list[tuple]]:
@@ -467,7 +474,17 @@ def run_api(S: str, shape: str, path: int, none_for_empty: bool,
         return d if d or not none_for_empty else None
 
     P = Prog(probe)
-    if shape in ("render", "render2", "render_with"):
+    if shape == "extends_block":
+        # a block rendered through an inheritance chain, inside a with / for of the base template;
+        # counter and assignment happen IN the overriding block
+        pre, _ = api_program(S, name, "plain", vals)
+        ns = [(name, lv["B"])] if "B" in S else [("forloop", ("D", 100)), ("q", ("I", 7))]
+        opener = ("{% with " + name + ": " + P.lit(lv["B"]) + " %}", "{% endwith %}") if "B" in S else ("{% for q in (7..7) %}", "{% endfor %}")
+        P.partials["base"] = opener[0] + "{% block b %}{% endblock %}" + opener[1] + "{{ " + P.out_expr(name) + " }}" + SEP
+        src = "{% extends 'base' %}{% block b %}" + P.src(pre) + "{{ " + P.out_expr(name) + " }}" + SEP + "{% endblock %}"
+        part_matter = {"base": {name: "v8"}}
+        nodes = None
+    elif shape in ("render", "render2", "render_with"):
         pre, _ = api_program(S, name, "plain", vals)
         ns = [(name, lv["B"])] if "B" in S else []
         args = "".join(f", {k}: {P.lit(v)}" for k, v in ns)
@@ -529,7 +546,7 @@ def run_api(S: str, shape: str, path: int, none_for_empty: bool,
     if t.global_data is env.globals or (tg and t.global_data is tg):
         problems.append("template.global_data aliases a caller mapping (make_globals did not allocate)")
     return {"name": name, "world": w, "pre": pre, "nodes": nodes, "prog": P, "src": src, "segs": segs,
-            "partials": dict(P.partials), "problems": problems, "ns": ns if shape in ("render", "render2", "render_with") else None}
+            "partials": dict(P.partials), "problems": problems, "ns": ns if shape in ("render", "render2", "render_with", "extends_block") else None}
 
 
 def spec_value(S: str, visible: str, vals: dict[str, tuple] | None = None) -> tuple | None:
@@ -565,7 +582,7 @@ def part_a(chk: C.Check, thorough: bool) -> list[dict[str, Any]]:
             replay["layer_values"] = {k: FALSY_NAME.get(v, str(v)) for k, v in vals.items()}
         for p in r["problems"]:
             chk.finding("api:" + p[:40], p, replay)
-        if shape in ("render", "render2", "render_with"):
+        if shape in ("render", "render2", "render_with", "extends_block"):
             segs = r["segs"]
             ok_shape = len(segs) == (3 if "C" not in S else 4) and segs[-1] == ""
             if not ok_shape:
@@ -575,7 +592,14 @@ def part_a(chk: C.Check, thorough: bool) -> list[dict[str, Any]]:
             # oracle: inside the partial the parent's locals and counters are invisible
             want_in = spec_value(S, "RMTEU" if shape == "render2" else "BRMTEU", vals)
             want_out = spec_value(S, "LRMTEUC", vals)
-            for got, want, where in ((inner, want_in, "inside {% render %}"), (outer, want_out, "after {% render %}")):
+            wheres = ("inside {% render %}", "after {% render %}")
+            if shape == "extends_block":
+                # in the block every layer is visible, block-scoped bindings of the page first;
+                # what the block assigned stays in the block
+                want_in = spec_value(S, LAYERS, vals)
+                want_out = spec_value(S, "RMTEUC", vals)
+                wheres = ("in a block through extends", "after the block through extends")
+            for got, want, where in ((inner, want_in, wheres[0]), (outer, want_out, wheres[1])):
                 stats["lookups"] += 1
                 g = ("U",) if got in (("N",), ("T",)) else got
                 if g != want:
@@ -584,6 +608,11 @@ def part_a(chk: C.Check, thorough: bool) -> list[dict[str, Any]]:
                     stats["falsy_value_won"][FALSY_NAME[want]] = stats["falsy_value_won"].get(FALSY_NAME[want], 0) + 1
             case = (f"{'chk_copy2' if shape == 'render2' else 'chk_copy'} {cworld(r['world'])} {cops(r['prog'].ops(r['pre']))} {cdict(r['ns'])} "
                     f"{ck(name)} {coval(inner)} {coval(outer)}")
+            if shape == "extends_block":
+                bops = r["prog"].ops(r["pre"]) + [("lookup", name)]
+                btrace = [("C", int(segs[0]) if re.fullmatch(r"-?\d+", segs[0]) else 12345)] if "C" in S else []
+                btrace.append(("L", name, inner))
+                case = f"chk_block {cworld(r['world'])} {cdict(r['ns'])} {cops(bops)} {ck(name)} {ctrace(btrace)} {coval(outer)}"
             items.append({"case": case, "model": f"render 30 {cworld(r['world'])} {cops(r['prog'].ops(r['pre']))}",
                           "replay": replay})
             return
@@ -1575,6 +1604,92 @@ def part_d(chk: C.Check, thorough: bool) -> None:
     chk.coverage["_d_nontrivial"] = len(touched | {e for e in exercised if not e[0].startswith("filter:")})
 
 
+# ================= F: Mapping data whose look-up of a missing key has a side effect (defaultdict)
+
+
+def part_f(chk: C.Check, thorough: bool) -> None:
+    """collections.defaultdict as caller data: `obj[key]` of a missing key INSERTS it.  Every
+    engine look-up is `obj[key]` in try/except, so look-ups of missing keys change the data
+    (known finding defaultdict-miss-inserts-key).  Any OTHER change is reported as a violation."""
+    from collections import defaultdict
+
+    from liquid2 import Environment
+    from liquid2.exceptions import LiquidError
+
+    def dd() -> Any:
+        return defaultdict(list, {"a": [1]})
+
+    def fresh(root: str) -> dict[str, Any]:
+        mm = {"mm": {"d": dd(), "l": [dd(), dd()]}}
+        return {"eg": {"eg": {"d": dd(), "l": [dd(), dd()]}},
+                "tg": {"tg": {"d": dd(), "l": [dd(), dd()]}},
+                "mm": defaultdict(list, mm) if root == "mm" else mm,  # for the matter root the matter itself too
+                "ra": {"ra": {"d": dd(), "l": [dd(), dd()]}}}
+
+    def only_default_insertions(before: Any, after: Any) -> bool:
+        """after == before except that defaultdicts gained keys bound to their default value."""
+        if isinstance(before, defaultdict) and isinstance(after, defaultdict):
+            if any(k not in after for k in before):
+                return False
+            for k, v in after.items():
+                if k in before:
+                    if not only_default_insertions(before[k], v):
+                        return False
+                elif v != after.default_factory():
+                    return False
+            return True
+        if type(before) is not type(after):
+            return False
+        if isinstance(before, dict):
+            return before.keys() == after.keys() and all(only_default_insertions(before[k], after[k]) for k in before)
+        if isinstance(before, (list, tuple)):
+            return len(before) == len(after) and all(only_default_insertions(x, y) for x, y in zip(before, after))
+        return before == after
+
+    forms = ["{{ R.d.missing }}", "{{ R.d.size }}", "{{ R.d.first }}", "{{ R.d.last }}", "{% if R.d.missing %}x{% endif %}",
+             "{{ R.l | map: 'k' }}", "{{ R.l | where: 'k' }}", "{{ R.l | reject: 'k' }}", "{{ R.l | sort: 'k' }}",
+             "{{ R.l | sort_natural: 'k' }}", "{{ R.l | sort_numeric: 'k' }}", "{{ R.l | sum: 'k' }}", "{{ R.l | uniq: 'k' }}",
+             "{{ R.l | compact: 'k' }}", "{{ R.l | find: 'k', 1 }}", "{{ R.l | find_index: 'k' }}", "{{ R.l | has: 'k' }}",
+             "{{ R.l | map: x => x.k }}", "{% for kv in R.d %}{{ R.d.other }}{% endfor %}", "{{ nosuch_name }}",
+             # present keys only: must change nothing
+             "{{ R.d.a | join }}", "{{ R.l | map: 'a' | join }}", "{% for kv in R.d %}{{ kv[0] }}{% endfor %}"]
+    st = chk.coverage.setdefault("partF", {"renders": 0, "changed_by_default_insertion": 0, "unchanged": 0, "witnesses": []})
+    loop = asyncio.new_event_loop()
+    try:
+        for root in ("eg", "tg", "mm", "ra"):
+            for form in forms:
+                for is_async in (False, True):
+                    data = fresh(root)
+                    before = copy.deepcopy(data)
+                    src = form.replace("R.", root + ".")
+                    env = Environment(loader=make_loader({"main": src}, {"main": data["mm"]}), globals=data["eg"])
+                    st["renders"] += 1
+                    try:
+                        if is_async:
+                            t = loop.run_until_complete(env.get_template_async("main", globals=data["tg"]))
+                            loop.run_until_complete(t.render_async(**data["ra"]))
+                        else:
+                            env.get_template("main", globals=data["tg"]).render(**data["ra"])
+                    except LiquidError:
+                        pass
+                    if data == before:
+                        st["unchanged"] += 1
+                        continue
+                    replay = {"source": src, "async": is_async, "before": repr(before[root]), "after": repr(data[root]),
+                              "how": "harness/c10.py part_f: data holds collections.defaultdict(list, {'a': [1]}); the loader matter is a defaultdict too"}
+                    if all(only_default_insertions(before[k], data[k]) for k in before):
+                        st["changed_by_default_insertion"] += 1
+                        if len(st["witnesses"]) < 3:
+                            st["witnesses"].append(replay)
+                        chk.finding("defaultdict-miss-inserts-key",
+                                    f"{src!r} (and the other look-ups of a missing key) inserted the key into a "
+                                    "caller-supplied collections.defaultdict", replay)
+                    else:
+                        chk.finding("mutation:mapping-with-missing-hook", f"{src!r} changed caller data beyond a default insertion", replay)
+    finally:
+        loop.close()
+
+
 # ==================================================================== main
 
 
@@ -1600,6 +1715,7 @@ def main(chk: C.Check, build: C.Build) -> None:
     t0 = time.time()
     part_d(chk, thorough)
     walls["D"] = round(time.time() - t0, 1)
+    part_f(chk, thorough)
     chk.coverage["part_wall_s"] = walls
 
     for it, part in ((items_a, "A public API"), (items_b, "B RenderContext"), (items_c, "C ReadOnlyChainMap"),
